@@ -3,7 +3,7 @@
 #   with the patch: the existing suite passes and the demo fails; without it: the demo passes.
 wt=$1; n=$2
 cd "$wt" || exit 2
-git checkout -q -- . ; rm -f tests/seed_demo_verify.rs
+git checkout -q -- . ; git clean -fdq -- src libs tests examples ; rm -f tests/seed_demo_verify.rs
 export CARGO_NET_OFFLINE=true CARGO_TARGET_DIR=${SEED_TARGET:-$wt/target}
 cp _seed/$n/demo.rs tests/seed_demo_verify.rs
 nopatch=$(cargo test --offline --test seed_demo_verify 2>&1 | grep -E '^test result' | tail -1)
@@ -11,7 +11,7 @@ git apply _seed/$n/patch.diff || { echo "PATCH DOES NOT APPLY"; exit 1; }
 withpatch=$(cargo test --offline --test seed_demo_verify 2>&1 | grep -E '^test result' | tail -1)
 rm -f tests/seed_demo_verify.rs
 suite=$(cargo test --workspace --no-fail-fast --offline 2>&1 | grep -E '^test result' | awk '{p+=$4; f+=$6} END {print p" passed "f" failed"}')
-git checkout -q -- .
+git checkout -q -- . ; git clean -fdq -- src libs tests examples
 echo "demo without patch: $nopatch"
 echo "demo with patch   : $withpatch"
 echo "suite with patch  : $suite"
